@@ -48,6 +48,17 @@ def judge(ctx, spec):
         return
     ctx.mon("detection_results")
     c04.check_invariants(ctx, ev, "task:sound_event_detection")
+    if ctx.evaluations % 4 == 0:
+        try:
+            with warnings.catch_warnings():
+                warnings.simplefilter("ignore")
+                ev2 = sound_event_detection(cps, cas, tags)
+            ctx.mon("repeat_call")
+            d = c09._cmp(c09.summarise(ev), c09.summarise(ev2))
+            if d:
+                ctx.violate("repeat_call_differs", "repeat_call_differs", observed={"differs_at": d}, expected="second evaluation of the same objects gives the same result", spec=spec)
+        except Exception as e:
+            ctx.violate_exc("raises", f"raises_on_second_call:{type(e).__name__}", e, spec=spec)
     evaluated = {str(E._u("clip", ci)): ci for ci, c in enumerate(spec["clips"]) if c["only"] == "both"}
     got = [str(ce.annotations.clip.uuid) for ce in ev.clip_evaluations]
     if sorted(got) != sorted(evaluated):
